@@ -192,6 +192,7 @@ func cmdCheck(args []string) {
 	wg.Wait()
 	rep := buildReport(p, rr, obls, *prop, *tier, *seed, *verif, *repo, *verbose)
 	runBounded(p, rep, *prop, thorough, *seed, *verif, *repo)
+	runDemoBattery(p, rep, *prop, *verif, *repo)
 	rep.WallS = time.Since(t0).Seconds()
 	writeEvidence(rep, *verif)
 	for _, l := range rep.Lines {
@@ -517,5 +518,78 @@ func runBounded(p *Prog, rep *Report, prop string, thorough bool, seed int, veri
 		}
 		b, _ := json.Marshal(entry)
 		rep.Cov.Bounded = append(rep.Cov.Bounded, b)
+	}
+}
+
+// runDemoBattery: when an obligation of the property has failed and none of the
+// failures could be replayed from the solver's model, the demonstration tests kept
+// with the seeded changes of that property (/verif/seeded/*/demo_test.go; each passes
+// on the pinned tree) are run against the tree under check, one at a time, until one
+// fails. A failing demonstration is a concrete failing test on the real code; it is
+// reported on a VIOLATION line of its own. The battery is never run on a tree whose
+// obligations all discharge.
+func runDemoBattery(p *Prog, rep *Report, prop, verif, repo string) {
+	if rep.Violations == 0 {
+		return
+	}
+	for _, l := range rep.Lines {
+		if strings.HasPrefix(l, "VIOLATION") && !strings.HasSuffix(l, "no-failing-input-found") {
+			return // a failure has already been replayed on the real code
+		}
+	}
+	seeded := filepath.Join(filepath.Dir(scenarioDir()), "seeded")
+	ents, err := os.ReadDir(seeded)
+	if err != nil {
+		return
+	}
+	deadline := time.Now().Add(240 * time.Second)
+	tried := 0
+	for _, en := range ents {
+		if time.Now().After(deadline) {
+			break
+		}
+		dir := filepath.Join(seeded, en.Name())
+		mb, err := os.ReadFile(filepath.Join(dir, "meta.json"))
+		if err != nil {
+			continue
+		}
+		var meta struct {
+			Property string `json:"property"`
+			Dir      string `json:"demo_package_dir"`
+		}
+		if json.Unmarshal(mb, &meta) != nil || meta.Property != prop {
+			continue
+		}
+		src, err := os.ReadFile(filepath.Join(dir, "demo_test.go"))
+		if err != nil {
+			continue
+		}
+		var names []string
+		for _, m := range regexp.MustCompile(`(?m)^func (Test[A-Za-z0-9_]*)`).FindAllStringSubmatch(string(src), -1) {
+			if m[1] != "TestMain" {
+				names = append(names, m[1])
+			}
+		}
+		if len(names) == 0 {
+			continue
+		}
+		tried++
+		out, _ := runOverlayTestNamed(repo, meta.Dir, string(src), "^("+strings.Join(names, "|")+")$", 150)
+		if strings.Contains(out, "--- FAIL") || strings.Contains(out, "panic:") {
+			rdir := filepath.Join(verif, "replays", prop)
+			_ = os.MkdirAll(rdir, 0o755)
+			path := filepath.Join(rdir, "demo_"+sanitize(en.Name())+".json")
+			rb, _ := json.MarshalIndent(map[string]interface{}{"property": prop, "obligation": "demonstration:" + en.Name(), "kind": "regression demonstration",
+				"note": "a demonstration test kept with the seeded changes of this property (it passes on the pinned tree) fails on the tree under check: a concrete failing test on the real code, found after obligations of the property had failed; not the solver's model",
+				"replay_confirmed": true, "generated_test": string(src), "test_output": truncate(out, 8000)}, "", " ")
+			_ = os.WriteFile(path, append(rb, '\n'), 0o644)
+			rep.Lines = append(rep.Lines, fmt.Sprintf("govc: demonstration test seeded/%s/demo_test.go fails on this tree", en.Name()))
+			rep.Lines = append(rep.Lines, fmt.Sprintf("VIOLATION property=%s replay=%s", prop, path))
+			rep.Violations++
+			return
+		}
+	}
+	if tried > 0 {
+		rep.Lines = append(rep.Lines, fmt.Sprintf("govc: %d demonstration test(s) of %s run against this tree: none fails", tried, prop))
 	}
 }
